@@ -2,6 +2,7 @@ import Driver.Proto
 import SpsdkVerif.Crypto.Exec
 import SpsdkVerif.Model.Sb2
 import SpsdkVerif.Model.Sb2Spec
+import SpsdkVerif.Model.Sb2Parse
 open SpsdkVerif Driver
 open SpsdkVerif.Sb2
 open SpsdkVerif.Misc (Bytes)
@@ -117,6 +118,46 @@ def cmdObs (x : Cmd) (n : Nat) : String :=
 
 def boolOf (s : String) : Option Bool := parseBool s
 
+/-! ### SPSDK's own image parser (Model/Sb2Parse.lean) -/
+
+def hexUDigits : Nat → Nat → List Char
+  | 0, _ => []
+  | f + 1, n => if n = 0 then [] else hexUDigits f (n / 16) ++ [let d := n % 16; if d < 10 then Char.ofNat (48 + d) else Char.ofNat (55 + d)]
+
+/-- Python `f"{n:X}"` -/
+def hexU (n : Nat) : String := if n = 0 then "0" else String.ofList (hexUDigits 64 n)
+
+def verHex (v : Version3) : String := s!"{hexU v.major}.{hexU v.minor}.{hexU v.service}"
+
+/-- a parsed command object through its public attributes (twin of `obj_view` in the harness) -/
+def objView (x : Cmd) : String :=
+  let h := x.hdr
+  match x with
+  | .nop => "nop"
+  | .reset => "reset"
+  | .tag .. => s!"tag({h.flags},{h.address},{h.count},{h.data})"
+  | .load .. => s!"load({h.address},{h.flags},{hx x.payload})"
+  | .fill .. => s!"fill({h.address},{h.data},{h.count})"
+  | .jump .. => s!"jump({h.address},{h.data},{if h.flags = 2 then toString h.count else "-"})"
+  | .call .. => s!"call({h.address},{h.data})"
+  | .erase .. => s!"erase({h.address},{h.count},{h.flags})"
+  | .memEnable .. => s!"memEnable({h.address},{h.count},{h.flags})"
+  | .prog .. => s!"prog({h.address},{h.count},{h.data},{h.flags})"
+  | .versionCheck .. => s!"fwVersionCheck({h.address},{h.count})"
+  | .keystoreToNv .. => s!"keystoreToNv({h.address},{(h.flags &&& 0xFF00) >>> 8 * 256})"
+  | .keystoreFromNv .. => s!"keystoreFromNv({h.address},{(h.flags &&& 0xFF00) >>> 8 * 256})"
+
+def parsedSectionStr (s : Section) : String :=
+  s!"{s.uid}:{s.effHmacCount}:[" ++ ",".intercalate (s.cmds.map objView) ++ "]"
+
+def parsedStr (x : Parse.Parsed) : String :=
+  s!"ver=2.{x.minor};flags={x.flags};pv={verHex x.productVersion};cv={verHex x.componentVersion};bn={x.buildNumber};" ++
+  s!"ts={x.timestamp / 1000000 + 946684800};nonce={hx x.nonce};dek={hx x.dek};mac={hx x.mac};sections=" ++
+  "|".intercalate (x.sections.map parsedSectionStr)
+
+def certParserOf (raw : Option Nat) (sigSize : Nat) (ok : Bool) : Parse.CertParser :=
+  fun _ => raw.map (fun r => ⟨r, sigSize, fun _ _ => ok⟩)
+
 def step (ts : List String) : String :=
   match ts with
   | ["hdr_enc", t, f, a, cn, d] =>
@@ -167,6 +208,24 @@ def step (ts : List String) : String :=
   | "expected20" :: sg :: rest =>
     (match boolOf sg, runP pCfg rest with
      | some sg, some cfg => (if decide (Spec.WF20 cfg sg) then "ok:" else "notwf:") ++ contentStr (Spec.expected20 cfg sg)
+     | _, _ => "bad-op")
+  | ["sparse21", kek, raw, sg, ok, file] =>
+    (match parseHex kek, pOptNat.run [raw], parseNat sg, boolOf ok, parseHex file with
+     | some kek, some (raw, _), some sg, some ok, some file =>
+       resLine parsedStr (Parse.parseV21 c (certParserOf raw sg ok) kek file)
+     | _, _, _, _, _ => "bad-op")
+  | ["sparse20", kek, raw, sg, ok, file] =>
+    (match parseHex kek, pOptNat.run [raw], parseNat sg, boolOf ok, parseHex file with
+     | some kek, some (raw, _), some sg, some ok, some file =>
+       resLine parsedStr (Parse.parseV20 c (certParserOf raw sg ok) kek file)
+     | _, _, _, _, _ => "bad-op")
+  | "parsed21" :: rest =>
+    (match runP pCfg rest with
+     | some cfg => "ok:" ++ parsedStr (Parse.parsedOf21 cfg)
+     | none => "bad-op")
+  | "parsed20" :: sg :: rest =>
+    (match boolOf sg, runP pCfg rest with
+     | some sg, some cfg => "ok:" ++ parsedStr (Parse.parsedOf20 cfg sg)
      | _, _ => "bad-op")
   | ["rom21", kek, file] =>
     (match parseHex kek, parseHex file with
